@@ -344,3 +344,12 @@ def run(chk):
                 chk.violation('num:%s:%s' % (kind, k2), msg, beh)
     chk.exhaustive = len(behs) == len(res.beh)
     chk.extra['bounds'] = {'MaxArgs': maxargs}
+
+
+def replay_case(payload):
+    """re-execute one recorded behaviour (argument call or numeral) against the current tree"""
+    if 'sig' in payload:
+        kind, msg = replay_args(payload)
+    else:
+        kind, msg = replay_num(payload)
+    return kind == 'ok', msg
